@@ -791,7 +791,7 @@ func genPlan(t *rapid.T) *Plan {
 	p.Stream = rapid.IntRange(0, 2).Draw(t, "responseBodyStream") == 0
 	if rapid.IntRange(0, 2).Draw(t, "closeIdleConcurrently") == 0 {
 		at := 0
-		for i := rapid.IntRange(2, 10).Draw(t, "nCloseIdle"); i > 0; i-- {
+		for i := rapid.IntRange(4, 24).Draw(t, "nCloseIdle"); i > 0; i-- {
 			at += rapid.SampledFrom([]int{0, 50, 100, 300, 1000, 3000}).Draw(t, "closeIdleGap")
 			p.CloseIdleAtUs = append(p.CloseIdleAtUs, at)
 		}
